@@ -86,6 +86,35 @@ def run_single(cfg):
             if want == want and abs(masses.get(name, float('nan')) - want) > tol:
                 viol.append(V('c17.mass', f'{txt}: element-derived mass of {name} is {masses.get(name)}, independent table gives {want:.3f}'))
         counters['masses_checked'] += len(masses)
+        if cfg['seed'] % 4 == 0 and not viol:
+            # a second sampler from a library DERIVED from the first one's (graph.copy() of every fragment, one atom replaced
+            # by its heavier congener): its masses are those of the edited fragments
+            from cgsmiles import MoleculeSampler
+            lib2 = {name: t.copy() for name, t in sampler.fragment_dict.items()}
+            pick = None
+            for el_, new_, delta in (('O', 'S', 32.06 - 15.999), ('C', 'Si', 28.0855 - 12.011)):
+                cand = [(name, n) for name, t in lib2.items() for n, d in t.nodes(data=True)
+                        if d.get('element') == el_ and not d.get('aromatic') and d.get('charge', 0) == 0]
+                if cand:
+                    pick = cand[cfg['seed'] // 4 % len(cand)] + (new_, delta)
+                    break
+            if pick:
+                name, n, new_, delta = pick
+                lib2[name].nodes[n]['element'] = new_
+                try:
+                    s2 = MoleculeSampler(lib2, cfg['polymer_reactivities'], fragment_reactivities=cfg['fragment_reactivities'],
+                                         terminal_bonds=list(cfg['terminal_bonds']), all_atom=True, seed=cfg['seed'])
+                    got, want = s2.fragment_masses.get(name), masses[name] + delta
+                    counters['masses_of_a_derived_library_checked'] += 1
+                    if got is None or abs(got - want) > 0.05:
+                        viol.append(V('c17.mass', f'{txt}: a second sampler built from a copy of the library in which atom {n} of {name} was replaced by {new_}: mass of {name} is {got}, '
+                                      f'expected {want:.3f} (the unedited fragment has {masses[name]:.3f})'))
+                    for other in lib2:
+                        if other != name and abs(s2.fragment_masses.get(other, float('nan')) - masses[other]) > 1e-6:
+                            viol.append(V('c17.mass', f'{txt}: second sampler from a copied library: mass of the unedited fragment {other} is {s2.fragment_masses.get(other)}, was {masses[other]}'))
+                            break
+                except Exception as err:
+                    viol.append(V('c17.constructor_exception.' + type(err).__name__, f'{txt}: second sampler from a copied, edited library: {type(err).__name__}: {err}'))
     target = SC.target_of(cfg, sampler)
     try:
         mol = sampler.sample(target, start_fragment=cfg['start_fragment'])
